@@ -1,12 +1,14 @@
 #!/usr/bin/env python3
-"""Development tool: import /tmp/mut3/<Fk>/out/patch_<n>.diff as seeded/<Cxx>_<next> and evaluate it against the declared
-property's check plus the checks that exercise the same source file."""
+"""Development tool: import $MUT_ROOT/<Fk>/out/patch_<n>.diff (default /tmp/mut3) as seeded/<Cxx>_<next> and evaluate it against the
+declared property's check plus the checks that exercise the same source file / theme."""
 import os, re, shutil, subprocess, sys, glob
 V = os.path.dirname(os.path.dirname(os.path.abspath(__file__)))
 NEIGH = {'F1': 'C01 C03 C06 C07 C08 C09 C10', 'F2': 'C01 C03 C05 C06 C07 C09', 'F3': 'C02 C03 C06 C07 C08 C09 C10', 'F4': 'C02 C03 C05 C06 C07 C09',
-         'F5': 'C11', 'F6': 'C12 C05 C07 C01 C11', 'F7': 'C04 C13 C14 C05', 'F8': 'C16', 'F9': 'C17 C18 C19', 'F10': 'C17 C18 C19'}
+         'F5': 'C11', 'F6': 'C12 C05 C07 C01 C11', 'F7': 'C04 C13 C14 C05', 'F8': 'C16', 'F9': 'C17 C18 C19', 'F10': 'C17 C18 C19',
+         'T1': 'C01 C12 C08 C07 C11', 'T2': 'C02 C10 C11 C08 C07', 'T3': 'C08 C07 C01 C02 C06', 'T4': 'C06 C09 C12 C11 C16 C18', 'T5': 'C10 C06 C07 C18 C12',
+         'T6': 'C01 C02 C11 C16 C17 C12 C05', 'T7': 'C04 C13 C14 C05', 'T8': 'C17 C18 C19', 'T9': 'C16 C03 C11 C14 C01', 'T10': 'C09 C03 C01 C02 C06'}
 fid, n = sys.argv[1], sys.argv[2]
-src = '/tmp/mut3/%s/out' % fid
+src = '%s/%s/out' % (os.environ.get('MUT_ROOT', '/tmp/mut3'), fid)
 notes = open(os.path.join(src, 'notes_%s.md' % n)).read()
 m = re.search(r'Property:\s*(C\d\d)', notes)
 prop = m.group(1) if m else NEIGH[fid].split()[0]
